@@ -73,6 +73,9 @@ impl Arr {
     pub fn build_raw(&self) -> Box<dyn ArrivalBound> {
         match self {
             Arr::Periodic { t } => Box::new(arrival::Periodic::new(d(*t))),
+            // (all three public ways of obtaining a jitter-free sporadic model)
+            Arr::Sporadic { t, j: 0 } if *t % 3 == 1 => Box::new(arrival::Sporadic::new_zero_jitter(d(*t))),
+            Arr::Sporadic { t, j: 0 } if *t % 3 == 2 => Box::new(arrival::Sporadic::from(arrival::Periodic::new(d(*t)))),
             Arr::Sporadic { t, j } => Box::new(arrival::Sporadic::new(d(*t), d(*j))),
             Arr::Curve { dmin } => Box::new(Self::build_curve(dmin)),
             Arr::Extrap { dmin } => Box::new(arrival::ExtrapolatingCurve::new(Self::build_curve(dmin))),
